@@ -61,7 +61,7 @@ def conforms(v, t):
                 return all(conforms(e, args[0]) for e in v)
             return len(v) == len(args) and all(conforms(e, a) for e, a in zip(v, args))
         if origin is type:
-            return issubclass(type(v), type) and issubclass(v, args[0])
+            return _sub(type(v), type) and _sub(v, args[0])
         if origin in (collections.abc.Iterator, collections.abc.Generator):
             return type(v) is types.GeneratorType
         raise ValueError("oracle: unknown generic %r" % (t,))
@@ -69,8 +69,14 @@ def conforms(v, t):
         if t is types.FunctionType:
             # the model has one class for every builtin callable kind
             return type(v) in _CALLABLE_TYPES
-        return issubclass(type(v), t)
+        return _sub(type(v), t)
     raise ValueError("oracle: unknown type %r" % (t,))
+
+
+def _sub(c, d):
+    """nominal subclassing (MRO containment): what the model's `Hier.sub` is; issubclass() would refuse some classes
+    (non-runtime Protocols) and answer structurally for ABCs"""
+    return d in getattr(c, "__mro__", ())
 
 
 def max_td(t):
@@ -143,7 +149,7 @@ def witnessed(e, vs, t):
                 return False
             return all(witnessed(False, [tp[i] for tp in tups], args[i]) for i in range(n))
         if origin is type:
-            return any(issubclass(type(v), type) and v is args[0] for v in vs)
+            return any(_sub(type(v), type) and v is args[0] for v in vs)
         if origin is collections.abc.Iterator:
             return args[0] is typing.Any and any(type(v) is types.GeneratorType for v in vs)
         return False
